@@ -503,3 +503,201 @@ func containsReturn(b *ast.BlockStmt) bool {
 	})
 	return found
 }
+
+// c03Order: the order of two ints is decided by comparing them. Deciding it by the sign of their
+// difference (a-b < 0, sign(a-b)) is wrong whenever the subtraction wraps around
+// (PHP_INT_MIN <=> 1). Scope: packages data and node. An *operand int* is the payload of an int value
+// (x.Value for x of the int value type) or the result of an AsInt() call. Obligations: one per function
+// that orders two operand ints — discharged when it compares them directly, violated when a difference
+// of two operand ints is compared with zero, or handed to a function that only looks at its argument's
+// sign, or returned from a function whose result is an ordering (int) next to such comparisons.
+func c03Order(r *Run, pkgs ...*packages.Package) {
+	r.curRule = "C03-PROMOTE"
+	dataPath := modPath + "/data"
+	for _, p := range pkgs {
+		if p == nil {
+			continue
+		}
+		info := p.TypesInfo
+		// sign functions: one int parameter, body compares it with 0 only, returns constants
+		signFn := map[*types.Func]bool{}
+		for _, fd := range funcDecls(p) {
+			fn, _ := info.Defs[fd.Name].(*types.Func)
+			if fn == nil || fd.Body == nil || fd.Recv != nil {
+				continue
+			}
+			sig := fn.Type().(*types.Signature)
+			if sig.Params().Len() != 1 || sig.Results().Len() != 1 || !isIntType(sig.Params().At(0).Type()) || !isIntType(sig.Results().At(0).Type()) {
+				continue
+			}
+			param := sig.Params().At(0)
+			onlySign, cmp := true, 0
+			ast.Inspect(fd.Body, func(n ast.Node) bool {
+				switch x := n.(type) {
+				case *ast.BinaryExpr:
+					if id, ok := ast.Unparen(x.X).(*ast.Ident); ok && info.Uses[id] == param {
+						if tv, ok := info.Types[x.Y]; ok && tv.Value != nil && tv.Value.String() == "0" {
+							cmp++
+							return true
+						}
+						onlySign = false
+					}
+				case *ast.ReturnStmt:
+					for _, res := range x.Results {
+						if tv, ok := info.Types[res]; !ok || tv.Value == nil {
+							onlySign = false
+						}
+					}
+				}
+				return true
+			})
+			if onlySign && cmp > 0 {
+				signFn[fn] = true
+			}
+		}
+		for _, fd := range funcDecls(p) {
+			if fd.Body == nil {
+				continue
+			}
+			operandInt := map[types.Object]bool{}
+			isOperandInt := func(e ast.Expr) bool {
+				e = ast.Unparen(e)
+				if se, ok := e.(*ast.SelectorExpr); ok && se.Sel.Name == "Value" && isNamed(info.TypeOf(se.X), dataPath, "IntValue") {
+					return true
+				}
+				if id, ok := e.(*ast.Ident); ok {
+					return operandInt[info.Uses[id]]
+				}
+				return false
+			}
+			for pass := 0; pass < 2; pass++ {
+				ast.Inspect(fd.Body, func(n ast.Node) bool {
+					as, ok := n.(*ast.AssignStmt)
+					if !ok || len(as.Rhs) != 1 || len(as.Lhs) == 0 {
+						return true
+					}
+					id, ok := as.Lhs[0].(*ast.Ident)
+					if !ok {
+						return true
+					}
+					o := info.Defs[id]
+					if o == nil {
+						o = info.Uses[id]
+					}
+					if o == nil {
+						return true
+					}
+					rhs := ast.Unparen(as.Rhs[0])
+					if len(as.Lhs) == 1 && isOperandInt(rhs) {
+						operandInt[o] = true
+					}
+					if c, ok := rhs.(*ast.CallExpr); ok {
+						if se, ok := ast.Unparen(c.Fun).(*ast.SelectorExpr); ok && se.Sel.Name == "AsInt" && len(c.Args) == 0 {
+							operandInt[o] = true
+						}
+					}
+					return true
+				})
+			}
+			parents := map[ast.Node]ast.Node{}
+			var stack []ast.Node
+			ast.Inspect(fd.Body, func(n ast.Node) bool {
+				if n == nil {
+					stack = stack[:len(stack)-1]
+					return true
+				}
+				if len(stack) > 0 {
+					parents[n] = stack[len(stack)-1]
+				}
+				stack = append(stack, n)
+				return true
+			})
+			direct, bad := token.NoPos, token.NoPos
+			why := ""
+			diffVar := map[types.Object]bool{}
+			ast.Inspect(fd.Body, func(n ast.Node) bool {
+				be, ok := n.(*ast.BinaryExpr)
+				if !ok {
+					return true
+				}
+				switch be.Op {
+				case token.LSS, token.GTR, token.LEQ, token.GEQ:
+					if isOperandInt(be.X) && isOperandInt(be.Y) && direct == token.NoPos {
+						direct = be.Pos()
+					}
+					// d < 0 for d := a - b
+					if id, ok := ast.Unparen(be.X).(*ast.Ident); ok && diffVar[info.Uses[id]] {
+						if tv, ok := info.Types[be.Y]; ok && tv.Value != nil && tv.Value.String() == "0" && bad == token.NoPos {
+							bad, why = be.Pos(), "the difference of two ints is compared with zero"
+						}
+					}
+				case token.SUB:
+					if !isOperandInt(be.X) || !isOperandInt(be.Y) {
+						return true
+					}
+					par := parents[be]
+					for {
+						if pe, ok := par.(*ast.ParenExpr); ok {
+							par = parents[pe]
+							continue
+						}
+						break
+					}
+					switch x := par.(type) {
+					case *ast.BinaryExpr:
+						if tv, ok := info.Types[x.Y]; ok && tv.Value != nil && tv.Value.String() == "0" {
+							switch x.Op {
+							case token.LSS, token.GTR, token.LEQ, token.GEQ:
+								if bad == token.NoPos {
+									bad, why = be.Pos(), "the difference of two ints is compared with zero"
+								}
+							}
+						}
+					case *ast.CallExpr:
+						if cal := calleeFunc(info, x); cal != nil && signFn[cal] && bad == token.NoPos {
+							bad, why = be.Pos(), "the difference of two ints is handed to "+cal.Name()+", which only looks at its sign"
+						}
+					case *ast.AssignStmt:
+						if len(x.Lhs) == 1 {
+							if id, ok := x.Lhs[0].(*ast.Ident); ok {
+								o := info.Defs[id]
+								if o == nil {
+									o = info.Uses[id]
+								}
+								if o != nil {
+									diffVar[o] = true
+								}
+							}
+						}
+					}
+				}
+				return true
+			})
+			// second look for d < 0 written after d := a - b
+			if bad == token.NoPos && len(diffVar) > 0 {
+				ast.Inspect(fd.Body, func(n ast.Node) bool {
+					be, ok := n.(*ast.BinaryExpr)
+					if !ok {
+						return true
+					}
+					switch be.Op {
+					case token.LSS, token.GTR, token.LEQ, token.GEQ:
+						if id, ok := ast.Unparen(be.X).(*ast.Ident); ok && diffVar[info.Uses[id]] {
+							if tv, ok := info.Types[be.Y]; ok && tv.Value != nil && tv.Value.String() == "0" && bad == token.NoPos {
+								bad, why = be.Pos(), "the difference of two ints is compared with zero"
+							}
+						}
+					}
+					return true
+				})
+			}
+			key := funcKey(p, fd) + "#orders-ints"
+			switch {
+			case bad != token.NoPos:
+				r.bad(key, bad, why+": the subtraction wraps around for operands far apart (PHP_INT_MIN against 1), so the order comes out reversed and <=>, sorting and < disagree")
+			case direct != token.NoPos:
+				r.ok(key, direct, "two ints are ordered by comparing them directly")
+			}
+		}
+	}
+}
